@@ -87,12 +87,18 @@ func c08build(kind string, r *rand.Rand, variant int) (enc []byte, dec c08decode
 		return f.Encode(), func(rd io.Reader) error { var m net.Message; return m.Read(rd) }, "message " + f.String(), nil
 	case "value":
 		sig := g.Sig(2 + variant%2)
+		if r.IntN(12) == 0 {
+			sig = c08largeSig(&g, r)
+		}
 		var b ref.Buf
 		b.Str(sig)
 		g.Data(sig, &b, 3)
 		return b.Bytes(), func(rd io.Reader) error { _, e := value.NewValue(rd); return e }, "value of signature " + sig, nil
 	case "typed":
 		sig := g.Sig(2 + variant%2)
+		if r.IntN(12) == 0 {
+			sig = c08largeSig(&g, r)
+		}
 		var b ref.Buf
 		g.Data(sig, &b, 3)
 		tr, e := signature.MakeReader(sig)
@@ -230,6 +236,15 @@ func c08build(kind string, r *rand.Rand, variant int) (enc []byte, dec c08decode
 	return nil, nil, "", fmt.Errorf("unknown kind %s", kind)
 }
 
+// c08largeSig picks a signature with a string or a raw buffer in it and lets
+// the generator draw one of them large (beyond any plausible chunk size of
+// the read path, and exactly on the powers of two it could be).
+func c08largeSig(g *sio.SigGen, r *rand.Rand) string {
+	n := 1
+	g.Large = &n
+	return []string{"r", "s", "r", "[r]", "(Lri)", "{sr}", "(s[i])", "m"}[r.IntN(8)]
+}
+
 type c08ending struct {
 	name    string
 	err     error
@@ -265,7 +280,17 @@ func (c08) Run(c *core.Case, env *core.Env) {
 		prefixesFirst := op.Kind == "govalue" && op.Y == 5
 		valid := func() bool {
 			full := &sio.Reader{Data: enc, Frag: "random", R: r, EndErr: io.EOF}
-			if e := dec(full); e != nil || full.Off != L {
+			e := dec(full)
+			if e == nil && full.Off < L {
+				// accepted without having been read to its end: what was read
+				// is a strict prefix, and the decoder has just accepted it
+				env.Probe("complete-encoding-accepted-short")
+				if e2 := dec(bytes.NewReader(enc[:full.Off])); e2 == nil {
+					env.Violate("accepted/"+op.Kind, "%s: the decoder stops after %d of the %d bytes of the encoding and reports success: that prefix decodes without error\n encoding %x", desc, full.Off, L, head(enc, 120))
+				}
+				return false
+			}
+			if e != nil || full.Off != L {
 				env.Probe("not-a-valid-encoding")
 				env.Note("discarded %s (%d bytes): err=%v consumed=%d", desc, L, e, full.Off)
 				return false
